@@ -34,7 +34,7 @@ ASSUMPTIONS = [
     "assertion timeout 60 s for scripts without a hanging reply (ordinary delays <= 0.15 s); the three hang scripts use 3 s against a 120 s hang: the only wall-clock dependence",
     "a sat reply (valid or potentially invalid model) makes the verdict FAIL, as the precedence in the statement says",
 ]
-WATCHDOG_S = {"quick": 900, "thorough": 7200}
+WATCHDOG_S = {"quick": 2400, "thorough": 10800}
 
 MANIFEST = {
     "category": "fault_enumeration",
